@@ -87,6 +87,7 @@ func cmdRun(args []string) {
 			job.Args = append(job.Args, v)
 		}
 	}
+	job.Stubs = proxyStubs
 	stats := sym.NewSolverStats()
 	known, _ := readKnown("")
 	e, err := sym.NewEngine(p, job, stats, known, 1)
@@ -197,7 +198,9 @@ func readKnown(prop string) (map[string]map[string]bool, map[string]knownEntry) 
 			m[e.ID] = map[string]bool{}
 		}
 		m[e.ID][e.Label] = true
-		byID[e.ID] = e
+		if _, ok := byID[e.ID]; !ok {
+			byID[e.ID] = e
+		}
 	}
 	return m, byID
 }
@@ -636,7 +639,11 @@ func showInputs(in []sym.Input) string {
 func replayViolation(runner *sym.NativeRunner, prog *sym.Program, v *sym.Violation) (bool, string) {
 	pkg := v.Harness[:strings.LastIndex(v.Harness, ".")]
 	race := v.Kind == "race"
-	outs, err := runner.Run(pkg, []sym.NativeCase{{Harness: v.Harness, Args: v.Args, Values: sym.ValuesOf(v.Inputs)}}, race, 60*time.Second)
+	to := 60 * time.Second
+	if v.Kind == "deadlock" {
+		to = 20 * time.Second // the native run is expected to hang: go test's own deadline is the oracle
+	}
+	outs, err := runner.Run(pkg, []sym.NativeCase{{Harness: v.Harness, Args: v.Args, Values: sym.ValuesOf(v.Inputs)}}, race, to)
 	if err != nil {
 		return false, "native run failed: " + firstLine(err.Error())
 	}
